@@ -1,7 +1,7 @@
 #!/bin/bash
 # harness-sched/mutest.sh <patch.diff|-> [args for run]   |   harness-sched/mutest.sh --clean
 # Thread-schedule engine against a *scratch worktree* of /repo (never touches /repo's files):
-# /repo HEAD + hook H1 (/verif/hooks/H1-sync-seam.patch, skipped if HEAD already has it) + the patch.
+# /repo HEAD + hooks H1 and H1b (/verif/hooks/H1-sync-seam.patch, H1b-seam-api.patch; each skipped if HEAD already has it) + the patch.
 # Everything lives in /tmp/mutest-$MUTEST_SLOT-sched (worktree, path-rewritten engine copy, output).
 set -u
 SLOT="${MUTEST_SLOT:-0}"
@@ -20,6 +20,9 @@ git -C "$BASE/wt" checkout -q --detach "$HEAD" 2>/dev/null
 git -C "$BASE/wt" checkout -q -- . && git -C "$BASE/wt" clean -fdq -e target
 if [ ! -f "$BASE/wt/crates/texlang/src/command/verif_sync.rs" ]; then
   git -C "$BASE/wt" apply /verif/hooks/H1-sync-seam.patch || { echo "hook H1 does not apply to /repo HEAD" >&2; exit 2; }
+fi
+if ! grep -q 'fn try_acquire' "$BASE/wt/crates/texlang/src/command/verif_sync.rs"; then
+  git -C "$BASE/wt" apply /verif/hooks/H1b-seam-api.patch || { echo "hook H1b does not apply to /repo HEAD" >&2; exit 2; }
 fi
 if [ "$PATCH" != "-" ]; then
   git -C "$BASE/wt" apply "$PATCH" || { echo "patch does not apply" >&2; exit 2; }
